@@ -133,18 +133,32 @@ func Generate(r *rand.Rand, name, dir, path string, o Opts) *Package {
 	if o.Docs {
 		g.w("doc.go", "// Package %s is synthetic.", name)
 	}
+	// package tags: every key at most once, most in doc.go, some in the package doc comment of a.go (the package's
+	// tags are those of ALL its files' package docs; no key sits in two files, so no precedence question arises)
+	var aDoc []string
 	for _, k := range o.TagKeys {
 		if g.r.Intn(100) < o.PkgTagProb {
 			v := o.TagValues[g.r.Intn(len(o.TagValues))]
-			if v == "" {
-				g.w("doc.go", "// +%s", k)
+			line := "// +" + k
+			if v != "" {
+				line += "=" + v
+			}
+			if g.r.Intn(3) == 0 {
+				aDoc = append(aDoc, line)
 			} else {
-				g.w("doc.go", "// +%s=%s", k, v)
+				g.w("doc.go", "%s", line)
 			}
 			p.PkgTags[k] = append(p.PkgTags[k], v)
 		}
 	}
 	g.w("doc.go", "package %s", name)
+	if len(aDoc) > 0 || g.r.Intn(2) == 0 {
+		// (a plain package comment without tags in a.go is the other half: it must not hide doc.go's tags)
+		g.w("a.go", "// Package %s, part a.", name)
+		for _, l := range aDoc {
+			g.w("a.go", "%s", l)
+		}
+	}
 
 	for _, f := range files {
 		g.w(f, "package %s\n", name)
@@ -219,6 +233,11 @@ func Generate(r *rand.Rand, name, dir, path string, o Opts) *Package {
 			// a local type named like a package-level function and constant
 			g.w("b.go", "\t{\n\t\ttype C0 struct{}\n\t\t_ = C0{}\n\t}")
 			p.LocalTyps = append(p.LocalTyps, "C0")
+			// a local INTERFACE type with a method of its own, named like a package-level type (the type checker records
+			// that method with the local type as receiver), and a local struct type embedding it
+			ln := names[g.r.Intn(len(names))]
+			g.w("b.go", "\t{\n\t\ttype %s interface{ LocalOnly%d() int }\n\t\tvar li %s\n\t\t_ = li\n\t}", ln, j, ln)
+			p.LocalTyps = append(p.LocalTyps, ln)
 		}
 		g.w("b.go", "\treturn lc%d\n}\n", j)
 	}
